@@ -87,6 +87,11 @@ func (p *c11) build(c c11Case) (*mt.TmplSet, map[string]mt.Val) {
 			inc.WithKeys = []string{"w"}
 			inc.WithVals = inc.WithVals[:1]
 		}
+		if c.overlap == 2 {
+			// `with` overrides also with null, false, 0 and the empty string
+			inc.WithKeys = []string{"w", "a", "z"}
+			inc.WithVals = []mt.Expr{mt.S(""), mt.Null(), mt.I(0)}
+		}
 	}
 	core := []mt.Stmt{mt.T("<<"), inc, mt.T(">>")}
 	core = append(core, probe("m")...)
@@ -123,7 +128,13 @@ func (p *c11) check(rec *core.Recorder, class string, set *mt.TmplSet, ctx map[s
 	srcs = maybeLarge(rec, srcs)
 	canon := canonSrcs(srcs) + canonCtx(ctx)
 	rec.Eval(class, canon, true)
-	res := renderFresh(srcs, "main", ctxToGo(ctx), func(e *twig.Engine) { e.EnableSandbox(allowAll{}) })
+	gctx := ctxToGo(ctx)
+	setup := func(e *twig.Engine) { e.EnableSandbox(allowAll{}) }
+	if !strings.Contains(srcs["main"], " only") && !strings.Contains(canon, " only %}") {
+		// without `only` anywhere, a global named like a variable of the includer never wins over it
+		setup = shadowedGlobals(rec, canon, gctx, setup)
+	}
+	res := renderFresh(srcs, "main", gctx, setup)
 	if res.Panicked {
 		rec.Violate("panic", "panic@"+res.Site, "engine panicked: "+res.PanicVal, caseDump(srcs, "main", ctx, nil), res.Stack)
 		return
